@@ -34,6 +34,7 @@ verbatim Verus text that goes into the verus! block):
      @loop <n>               following lines are inserted before the `{` of the n-th loop (1-based, source order)
      @loopbody <n>           following lines are inserted at the start of the n-th loop's body
      @replace <n-th occurrence> /<literal>/ => /<text>/    declared token-level rewrite (R6/R7), must match
+     @at <n> /<literal>/     following lines (proof hints) are inserted after the n-th occurrence of the literal body text
   @end
   @open <file> | <container>                emit the container header and `{` (for traits / multi-fn impls)
   @close                                    emit `}`
@@ -426,7 +427,7 @@ class Generator:
 
     def parse_block(self, block, rel, line0):
         """split a @fn/@const block into sections"""
-        sec = {"contract": [], "entry": [], "loop": {}, "loopbody": {}, "replace": [], "ret": None, "arm": []}
+        sec = {"contract": [], "entry": [], "loop": {}, "loopbody": {}, "replace": [], "ret": None, "arm": [], "at": []}
         cur = ("contract", None)
         for k, ln in enumerate(block):
             lno = line0 + 1 + k
@@ -441,6 +442,13 @@ class Generator:
             if ln.startswith("@loop"):
                 cur = ("loop", int(ln.split()[1]))
                 sec["loop"].setdefault(cur[1], [])
+                continue
+            if ln.startswith("@at"):
+                m = re.match(r"@at\s+(\d+)\s+/(.*)/\s*$", ln)
+                if not m:
+                    raise GenError(f"{rel}:{lno}: malformed @at")
+                sec["at"].append([int(m.group(1)), m.group(2), [], lno])
+                cur = ("at", len(sec["at"]) - 1)
                 continue
             if ln.startswith("@arm"):
                 m = re.match(r"@arm\s+(\d+)\s+(\S+)\s*=>\s*(.*)$", ln)
@@ -457,7 +465,9 @@ class Generator:
             if cur[0] == "contract" and s.startswith("ret ") and sec["ret"] is None and not sec["contract"]:
                 sec["ret"] = s.split()[1]
                 continue
-            if cur[0] in ("contract", "entry"):
+            if cur[0] == "at":
+                sec["at"][cur[1]][2].append((ln, lno))
+            elif cur[0] in ("contract", "entry"):
                 sec[cur[0]].append((ln, lno))
             else:
                 sec[cur[0]][cur[1]].append((ln, lno))
@@ -567,6 +577,15 @@ class Generator:
                 if len(arms) != 1:
                     raise GenError(f"{rel}:{l}: anchor lost: match {nth} of fn {name} has {len(arms)} arms with pattern {pat}")
                 piece.replace(tuple(arms[0]["body"]), new, "R6-arm")
+            # proof hints anchored after the n-th occurrence of a literal piece of the body text
+            body_txt0 = src.text[body_s:body_e].decode()
+            for (nth, lit, pairs, l) in sec["at"]:
+                idxs = [m.start() for m in re.finditer(re.escape(lit), body_txt0)]
+                if len(idxs) < nth or nth < 1:
+                    raise GenError(f"{rel}:{l}: anchor lost: @at target /{lit}/ occurrence {nth} not found in fn {name}")
+                boff = body_s + len(body_txt0[:idxs[nth - 1] + len(lit)].encode())
+                if pairs:
+                    piece.insert(boff, "\n" + self.join_lines(pairs) + "\n", "hint", order=2, spec_line=(rel, pairs[0][1] - 1))
             # declared literal rewrites inside the body
             body_txt = src.text[body_s:body_e].decode()
             for (nth, lit, new, l) in sec["replace"]:
